@@ -246,7 +246,7 @@ Verdict(ev) ==
             \cup (IF ev.v \in {0, 1} /\ rp[1] = "err" THEN {"rec_not_x"} ELSE {})
             \cup (IF BigEq(r, 0) \/ BigEq(s, 0) THEN {"rec_rs_zero"} ELSE {})
             \cup (IF rp[1] = "ok" /\ ~BigEq(r, 0) /\ ~BigEq(s, 0) /\ eo[1] = "ok" /\ rc[1] = "err" THEN {"rec_q_inf"} ELSE {})
-            \cup (IF rc[1] = "ok" THEN {"rec_ok"} ELSE {})
+            \cup (IF rc[1] = "ok" THEN {"rec_ok"} ELSE {}) \cup (IF rc[1] = "ok" THEN DigestClasses(ev.digest) ELSE {})
             \cup (IF Has(ev, "honest") /\ ev.honest /\ rc[1] = "ok" /\ ev.q # ev.signer THEN {"rec_honest_other_v"} ELSE {}) >>
 
 (* ---- stateful: hedged signing through a scripted entropy reader ---- *)
